@@ -170,6 +170,12 @@ func (changes *Changes) GetDSC() (*DSC, error) {
 // be used to move something into an incoming directory with an inotify
 // hook. This will also mutate Changes.Filename to match the new location.
 func (changes *Changes) Copy(dest string) error {
+	for _, file := range changes.Files {
+		if err := internal.CheckFilename(file.Filename); err != nil {
+			return err
+		}
+	}
+
 	if file, err := os.Stat(dest); err == nil && !file.IsDir() {
 		return fmt.Errorf("Attempting to move .changes to a non-directory")
 	}
@@ -196,6 +202,12 @@ func (changes *Changes) Copy(dest string) error {
 // be used to move something into an incoming directory with an inotify
 // hook. This will also mutate Changes.Filename to match the new location.
 func (changes *Changes) Move(dest string) error {
+	for _, file := range changes.Files {
+		if err := internal.CheckFilename(file.Filename); err != nil {
+			return err
+		}
+	}
+
 	if file, err := os.Stat(dest); err == nil && !file.IsDir() {
 		return fmt.Errorf("Attempting to move .changes to a non-directory")
 	}
@@ -218,6 +230,12 @@ func (changes *Changes) Move(dest string) error {
 // always remove the .changes last, in the event there are filesystem i/o errors
 // on removing associated files.
 func (changes *Changes) Remove() error {
+	for _, file := range changes.Files {
+		if err := internal.CheckFilename(file.Filename); err != nil {
+			return err
+		}
+	}
+
 	for _, file := range changes.AbsFiles() {
 		err := os.Remove(file.Filename)
 		if err != nil {
